@@ -384,7 +384,26 @@ func (e *Engine) registerFmtIntrinsics() {
 		return BoolV{C: false}
 	}
 	in["fmt.Sprintf"] = func(r *Run, fr *frame, a []Value) Value {
-		return r.sprintf(a[0].(StrV).concrete(), a[1].(SliceV).Data)
+		return r.sprintfV(a[0].(StrV), a[1].(SliceV).Data)
+	}
+	// fmt.Fprintf = one Write of the formatted text
+	in["fmt.Fprintf"] = func(r *Run, fr *frame, a []Value) Value {
+		w := a[0].(Iface)
+		s := r.sprintfV(a[1].(StrV), a[2].(SliceV).Data)
+		if p, ok := w.V.(Ptr); ok && p != nil {
+			if b, ok := (*p).(*bufWriterObj); ok {
+				b.buf = concatStr(b.buf, s)
+				return Tuple{r.strLen(s), Iface{}}
+			}
+		}
+		m := r.eng.prog.LookupMethod(w.T, nil, "Write")
+		if m == nil {
+			panic(unsupported("Write method not found on %v", w.T))
+		}
+		return r.callFunc(fr, m, []Value{w.V, BytesOf{S: s}}, nil)
+	}
+	in["(*github.com/fatih/color.Color).Sprintf"] = func(r *Run, fr *frame, a []Value) Value {
+		return r.sprintfV(a[1].(StrV), a[2].(SliceV).Data)
 	}
 	// fmt.Errorf without %w is errors.New(Sprintf(...)) (fmt/errors.go); the real errors.New is executed
 	in["fmt.Errorf"] = func(r *Run, fr *frame, a []Value) Value {
@@ -395,6 +414,24 @@ func (e *Engine) registerFmtIntrinsics() {
 		msg := r.sprintf(f, a[1].(SliceV).Data)
 		return r.callFunc(fr, r.eng.prog.ImportedPackage("errors").Func("New"), []Value{msg}, nil)
 	}
+}
+
+// sprintfV: formatting with a format string that may be symbolic. A literal format is interpreted; an opaque
+// format without operands is the identity iff it contains no '%' (every '%' changes the text: a verb is consumed or
+// reported as missing, "%%" becomes "%"), otherwise the result is some other string.
+func (r *Run) sprintfV(f StrV, args []Value) StrV {
+	if f.isConcrete() {
+		return r.sprintf(f.concrete(), args)
+	}
+	if len(args) != 0 || !f.hasAtom() {
+		panic(unsupported("Sprintf with a symbolic format and operands"))
+	}
+	if r.branch(mk("str.contains", sortBool, f.term(), mkStrLit("%"))) {
+		x := r.fresh("s_fmt", sortStr)
+		r.pc = append(r.pc, mkNot(mkEq(x, f.term())))
+		return StrV{Segs: []Seg{{Atom: x}}}
+	}
+	return f
 }
 
 func (r *Run) sprintf(f string, args []Value) StrV {
